@@ -3,7 +3,7 @@
 EXTRA) against the change in a scratch worktree and writes meta.json."""
 import json, os, subprocess, sys, glob, re
 ROOT='/verif/seeded'
-EXTRA={'C06-24':['C05'],'C07-25':['C01'],'C17-24':['C19'],'C05-25':['C17'],'C01-27':['C04'],'C12-23':['C10'],'C12-25':['C10'],'C01-22':['C02'],'C01-23':['C02'],'C09-20':['C02'],'C09-21':['C02'],'C11-20':['C10'],'C17-20':['C12'],'C17-21':['C07'],'C12-22':['C17'],'C04-21':['C03'],'C04-22':['C03'],'C04-18':['C03'],'C06-18':['C05'],'C07-17':['C01'],'C17-17':['C12'],'C17-18':['C08'],'C17-19':['C13'],'C12-19':['C10'],'C01-17':['C16'],'C04-14':['C03'],'C04-15':['C03'],'C04-16':['C03'],'C06-15':['C05'],'C09-14':['C02'],'C17-14':['C12'],'C17-15':['C08'],'C17-16':['C03'],'C01-13':['C02'],'C17-12':['C14'],'C01-10':['C02','C16'],'C01-12':['C02'],'C04-10':['C03'],'C05-12':['C17'],'C06-10':['C17'],'C12-10':['C17'],'C13-10':['C17'],'C17-8':['C12'],'C12-8':['C17'],'C05-10':['C18'],'C01-8':['C02'],'C01-9':['C02'],'C04-6':['C03'],'C05-8':['C17'],'C17-5':['C13'],'C04-4':['C03'],'C02-5':['C16'],'C12-3':['C10'],'C01-2':['C03','C04'],'C01-4':['C17'],'C05-4':['C17'],'C02-1':['C16'],'C07-2':['C17','C18'],'C03-1':[]}
+EXTRA={'C02-29':['C16'],'C08-27':['C16'],'C17-27':['C05'],'C06-27':['C05'],'C06-26':['C05'],'C18-26':['C05'],'C12-28':['C17'],'C06-24':['C05'],'C07-25':['C01'],'C17-24':['C19'],'C05-25':['C17'],'C01-27':['C04'],'C12-23':['C10'],'C12-25':['C10'],'C01-22':['C02'],'C01-23':['C02'],'C09-20':['C02'],'C09-21':['C02'],'C11-20':['C10'],'C17-20':['C12'],'C17-21':['C07'],'C12-22':['C17'],'C04-21':['C03'],'C04-22':['C03'],'C04-18':['C03'],'C06-18':['C05'],'C07-17':['C01'],'C17-17':['C12'],'C17-18':['C08'],'C17-19':['C13'],'C12-19':['C10'],'C01-17':['C16'],'C04-14':['C03'],'C04-15':['C03'],'C04-16':['C03'],'C06-15':['C05'],'C09-14':['C02'],'C17-14':['C12'],'C17-15':['C08'],'C17-16':['C03'],'C01-13':['C02'],'C17-12':['C14'],'C01-10':['C02','C16'],'C01-12':['C02'],'C04-10':['C03'],'C05-12':['C17'],'C06-10':['C17'],'C12-10':['C17'],'C13-10':['C17'],'C17-8':['C12'],'C12-8':['C17'],'C05-10':['C18'],'C01-8':['C02'],'C01-9':['C02'],'C04-6':['C03'],'C05-8':['C17'],'C17-5':['C13'],'C04-4':['C03'],'C02-5':['C16'],'C12-3':['C10'],'C01-2':['C03','C04'],'C01-4':['C17'],'C05-4':['C17'],'C02-1':['C16'],'C07-2':['C17','C18'],'C03-1':[]}
 only=set(sys.argv[1:])
 for d in sorted(glob.glob(ROOT+'/C*-*')):
     name=os.path.basename(d)
